@@ -106,6 +106,11 @@ class Repo:
         if normalise:
             from . import normal
             normal.normalise_repo(self.trees, use_reference=(normalise != 'noref'), stats=self.renamed)
+        from .au import mark_containers
+        for t in self.trees.values():
+            for n in ast.walk(t):
+                if isinstance(n, (ast.FunctionDef, ast.AsyncFunctionDef)):
+                    mark_containers(n)          # reads of names that certainly hold a builtin container: `not x` is `len(x) == 0` there
         for m, t in self.trees.items():
             self._index(m, t)
         self._callgraph = None
